@@ -38,10 +38,11 @@ def main(argv=None):
     # ---------------------------------------------------------------- replay
     if args.replay:
         w = json.loads(Path(args.replay).read_text())
-        want_hs = (w.get("ambient") or {}).get("PYTHONHASHSEED")
-        if want_hs not in (None, "", os.environ.get("PYTHONHASHSEED")):
-            # the witness was observed under another hash seed: replay under that one
-            env = dict(os.environ, PYTHONHASHSEED=str(want_hs))
+        amb = {k: str(v) for k, v in (w.get("ambient") or {}).items() if v not in (None, "")}
+        if any(os.environ.get(k, "") != v for k, v in amb.items()):
+            # the witness was observed under other process settings (hash seed, python -O, the
+            # ambient lane): replay under those
+            env = dict(os.environ, **amb)
             os.execve(sys.executable, [sys.executable, "-m", "jsverif.cli"] + list(argv or sys.argv[1:]), env)
         case = w.get("case", w)
         ctx = core.Ctx(pid, args.tier, seed, replay=True)
@@ -75,25 +76,37 @@ def main(argv=None):
         partials.append(core.run_shard(mod, ctx))
         lane = getattr(mod, "HASHSEED_LANE", 6)
         if lane and not os.environ.get("JSVERIF_NO_HASHSEED_LANE"):
-            # a further slice of cases (shard 1 of `lane`) in a subprocess under another hash seed:
-            # iteration order of string sets etc. is an input the library must not depend on
+            # further slices of cases (shards 1 and 2 of `lane`) in subprocesses under other process
+            # settings: another hash seed (iteration order of string sets etc. is an input the
+            # library must not depend on); and the 'ambient' lane - python -O, a third hash seed,
+            # unusual numpy / matplotlib / warnings settings (core.apply_ambient)
+            lanes = [("a_second_hash_seed", 1, {"PYTHONHASHSEED": str((seed * 131 + 7919) % 4294967295)}),
+                     ("unusual_process_settings", 2,
+                      {"PYTHONHASHSEED": str((seed * 131 + 104729) % 4294967295), "PYTHONOPTIMIZE": "1",
+                       "JSVERIF_AMBIENT": "1"})]
             with tempfile.TemporaryDirectory(prefix="jsverif-") as td:
-                out = Path(td) / "lane.json"
-                env = dict(os.environ, PYTHONHASHSEED=str((seed * 131 + 7919) % 4294967295))
-                cmd = [sys.executable, "-m", "jsverif.cli", pid, "--tier", args.tier,
-                       "--shard", f"1/{lane}", "--partial-out", str(out)]
-                try:
-                    pr = subprocess.run(cmd, cwd=str(core.ROOT), env=env, capture_output=True, text=True,
-                                        timeout=hard)
+                running = []
+                for name, idx, extra in lanes:
+                    out = Path(td) / f"lane{idx}.json"
+                    cmd = [sys.executable, "-m", "jsverif.cli", pid, "--tier", args.tier,
+                           "--shard", f"{idx}/{lane}", "--partial-out", str(out)]
+                    running.append((name, out, subprocess.Popen(
+                        cmd, cwd=str(core.ROOT), env=dict(os.environ, **extra),
+                        stdout=subprocess.PIPE, stderr=subprocess.STDOUT, text=True)))
+                for name, out, pr in running:
+                    try:
+                        txt, _ = pr.communicate(timeout=hard)
+                    except subprocess.TimeoutExpired:
+                        pr.kill()
+                        inconclusive.append(f"lane {name} hit the wall-clock watchdog")
+                        continue
                     if out.exists():
                         lp = json.loads(out.read_text())
-                        lp.setdefault("counters", {})["cases_run_under_a_second_hash_seed"] = \
+                        lp.setdefault("counters", {})["cases_run_under_" + name] = \
                             lp.get("evaluations", 0) or len(lp.get("distinct", []))
                         partials.append(lp)
                     else:
-                        inconclusive.append("hash-seed lane produced no result: " + (pr.stdout + pr.stderr)[-800:])
-                except subprocess.TimeoutExpired:
-                    inconclusive.append("hash-seed lane hit the wall-clock watchdog")
+                        inconclusive.append(f"lane {name} produced no result: " + (txt or "")[-800:])
     else:
         with tempfile.TemporaryDirectory(prefix="jsverif-") as td:
             procs = []
@@ -108,6 +121,8 @@ def main(argv=None):
                 # every shard runs under its own hash seed (iteration order of string sets and the
                 # like is an input the library must not depend on); recorded in every witness
                 env = dict(os.environ, PYTHONHASHSEED=str((seed * 131 + i * 7919) % 4294967295))
+                if i == n - 1 and n >= 3:
+                    env.update(PYTHONOPTIMIZE="1", JSVERIF_AMBIENT="1")     # the 'ambient' lane
                 procs.append((i, out, log, subprocess.Popen(
                     cmd, stdout=log, stderr=subprocess.STDOUT, cwd=str(core.ROOT), env=env
                 )))
